@@ -23,6 +23,7 @@ int env_in_len, env_in_pos;
 const char *env_in_tail = "";	/* repeated forever once env_in is used up ("" = EOF) */
 static int tail_pos;
 long env_in_reads;		/* bytes delivered in total */
+int env_in_bulk;		/* read(0, buf, n) delivers up to n waiting bytes instead of one */
 #define TAIL_MAX 64		/* after so many tail bytes the input really ends */
 
 /* marks: when the byte at env_mark_at[k] is about to be delivered, remember how much terminal output exists
@@ -221,10 +222,14 @@ long env_read(int fd, void *buf, size_t n)
 	long k;
 	if (fd == 0) {
 		int c;
+		size_t got = 0;
 		if (n == 0 || (c = in_next()) < 0)
 			return 0;
-		*(char *) buf = c;
-		return 1;
+		((char *) buf)[got++] = c;
+		/* a terminal in raw mode hands over one byte per read; a pipe or a paste hands over all that is waiting */
+		while (env_in_bulk && got < n && env_in_pos < env_in_len && (c = in_next()) >= 0)
+			((char *) buf)[got++] = c;
+		return got;
 	}
 	if (fd < 3 || fd >= ENV_NFD || !env_fd[fd].used)
 		return -1;
